@@ -235,4 +235,15 @@ theorem mirror_run (s : St) (ops : List Op) (h : Reporting s) (ho : ∀ op ∈ o
     rw [e, replay_append, h1, h2]
     simp [final]
 
+/-- A callback run never produces one of the store-level refusals. -/
+theorem execItem_res (s : St) (present : Bool) (ev : Event) (fc fi : Bool) :
+    (execItem s present ev fc fi).1 ≠ .errExists ∧ (execItem s present ev fc fi).1 ≠ .errMissing := by
+  obtain ⟨m, en, hC, hA, hM, hD⟩ := s
+  cases en <;> cases hC <;> cases fc <;> cases present <;> cases fi <;> simp [execItem, execChanged]
+
+theorem execChanged_res (s : St) (fc : Bool) :
+    (execChanged s fc).1 ≠ .errExists ∧ (execChanged s fc).1 ≠ .errMissing := by
+  obtain ⟨m, en, hC, hA, hM, hD⟩ := s
+  cases en <;> cases hC <;> cases fc <;> simp [execChanged]
+
 end Hive.C12b.OC
